@@ -33,6 +33,7 @@ inductive Err where
   | noLength       -- InvalidFormat("Missing data length")
   | noFooter       -- InvalidFormat("Missing footer")
   | size           -- InvalidFormat("Data size mismatch")
+  | truncated      -- InvalidFormat("Checkpoint data truncated") (only `load` after the proposed fix)
   deriving DecidableEq, Repr, Inhabited
 
 abbrev Res (α : Type) := Except Err α
@@ -167,6 +168,44 @@ def readCheckpoint {σ : Type} (crc : Bytes → Nat) (de : Bytes → Option σ) 
         else match de payload with
           | none => .error .ser
           | some s => .ok s
+
+/-- outcome of a read path that can PANIC -/
+inductive LoadRes (σ : Type) where
+  | ok (s : σ)
+  | error (e : Err)
+  | crash            -- index / slice out of bounds: the process panics
+  deriving Repr
+
+def LoadRes.isCrash {σ : Type} : LoadRes σ → Bool
+  | .crash => true
+  | _ => false
+
+def LoadRes.toOption {σ : Type} : LoadRes σ → Option σ
+  | .ok s => some s
+  | _ => none
+
+/-- `CheckpointReader::open` + `load` WITHOUT `validate` (both are public; every caller inside
+    /repo validates first).  `load` reads the data-length field and slices the payload:
+    * `checked = false` (the code as it is): without any bounds check — an image that ends inside
+      the length field or before the announced end of the payload PANICS (`self.data[data_offset]`,
+      `&self.data[data_start..data_end]`);
+    * `checked = true` (the proposed fix): the same two situations are `InvalidFormat` errors.
+    No checksum is looked at on this path (that is `validate`'s job). -/
+def loadCheckpoint {σ : Type} (checked : Bool) (crc : Bytes → Nat) (de : Bytes → Option σ) (data : Bytes) : LoadRes σ :=
+  if data.length < 48 then .error .tooSmall
+  else
+    let h := data.take 48
+    if h.take 4 ≠ chkMagic then .error .magic
+    else if (h.drop 4).take 1 ≠ [1] then .error .version
+    else if crc (h.take 6 ++ (h.drop 8).take 24) ≠ leVal ((h.drop 44).take 4) then .error .checksum
+    else if data.length < 52 then (if checked then .error .noLength else .crash)
+    else
+      let dlen := leVal ((data.drop 48).take 4)
+      if data.length < 52 + dlen then (if checked then .error .truncated else .crash)
+      else if ((h.drop 5).take 1).any (fun b => b % 2 = 1) then .error .compression
+      else match de ((data.drop 52).take dlen) with
+        | none => .error .ser
+        | some s => .ok s
 
 /-! ## gossip frames: `GossipMessage::{serialize,deserialize}` = serde_json over derived impls
 
